@@ -218,7 +218,7 @@ class SyntaxGen:
             if r.random() < 0.6:
                 out += ["else"]
                 out += self.block(d + 1) if r.random() < 0.3 else self.or_expr(d + 1)
-            return out
+            return self.greedy(out) if d > 0 else out
         return self.or_expr(d)
 
     def or_expr(self, d):
@@ -354,8 +354,15 @@ class SyntaxGen:
                     out = out + ["["] + self.expr(d + 1) + ["]", op] + self.expr(d + 1)
                 else:
                     out = out + ["->", self.plain_ident(), op] + self.expr(d + 1)
-                return out
+                return self.greedy(out)
         return out
+
+    def greedy(self, toks):
+        """Constructs whose trailing expression swallows everything to its right:
+        usually parenthesised when used as an operand."""
+        if self.r.random() < 0.8:
+            return ["("] + toks + [")"]
+        return toks
 
     def comprehension_tail(self, d):
         r = self.r
@@ -383,17 +390,17 @@ class SyntaxGen:
             return self.postfix(["("] + inner + [")"], d)
         if k == 1:
             op = r.choice(["=", "=", "+=", "-=", "*=", "/=", "%="])
-            return [self.plain_ident(), op] + self.expr(d + 1)
+            return self.greedy([self.plain_ident(), op] + self.expr(d + 1))
         if k == 2:
             return self.postfix([self.ident()], d)
         if k == 3:
-            return ["fn"] + self.fn_tail(d + 1)
+            return self.greedy(["fn"] + self.fn_tail(d + 1))
         if k == 4:
             return [r.choice(["break", "continue"])]
         if k == 5:
-            return ["return"] + ([] if r.random() < 0.2 else self.expr(d + 1))
+            return self.greedy(["return"] + self.expr(d + 1))
         if k == 6:
-            return ["error"] + self.expr(d + 1)
+            return self.greedy(["error"] + self.expr(d + 1))
         if k == 7:
             return self.block(d + 1)
         if k == 8:
@@ -405,8 +412,8 @@ class SyntaxGen:
         if k == 9:
             return self.postfix(["["] + self.expr(d + 1) + self.comprehension_tail(d) + ["]"], d, False)
         if k == 10:
-            return (["["] + self.sep_list(lambda: [self.plain_ident()], 1, 3) + ["]", "="]
-                    + self.expr(d + 1))
+            return self.greedy(["["] + self.sep_list(lambda: [self.plain_ident()], 1, 3)
+                               + ["]", "="] + self.expr(d + 1))
         if k == 11:
             return self.postfix(["<<"] + self.sep_list(lambda: self.expr(d + 1), 0, 3, trailing=True) + [">>"], d, False)
         if k == 12:
